@@ -101,4 +101,12 @@ OBLIGATIONS = [
         desc="_do_modify_update's modifier: result = old[:offset] + data + old[offset+len:], every byte outside the write unchanged, file "
              "extended when the write passes EOF, old contents not mutated (offset <= old length)",
         outside="offset > current size (outside the documented precondition of update(): offsets inside the file or exactly at EOF)"),
+    chx("mdmf_block_layout", "C09_h", "h_mdmf_block_layout", timeout=T,
+        cases={"quick": [{"k": 3, "segsize": 6, "_label": "k3-seg6"}, {"k": 1, "segsize": 131072, "_label": "k1-seg131072"}],
+               "thorough": [{"k": k, "segsize": k * m, "_label": "k%d-seg%d" % (k, k * m)} for k in (1, 2, 3, 5, 16) for m in (1, 2, 43691)]},
+        desc="real MDMFSlotWriteProxy.__init__/put_block/put_blockhashes for symbolic datalength and segment j: the (salt+block) of segment j "
+             "(block size = the publisher's: ceil(segment bytes / k)) is queued at share_data + j*(salt+full block); consecutive blocks are "
+             "contiguous and disjoint; the last block ends exactly at offsets['block_hash_tree'] - including datalength an exact multiple "
+             "of the segment size; share data starts after the fixed-size key/signature/hash-chain area; wrong-sized blocks are refused",
+        outside="contents of the other fields; the read proxy's use of the offsets (C38/C10)"),
 ]
